@@ -11,8 +11,9 @@ package cache
 // only reaches callers overlapping the failing query.  Runner / generator: internal/verifc07.
 
 import (
-	"errors"
+	"context"
 	"fmt"
+	"sync"
 	"testing"
 	"time"
 
@@ -29,12 +30,12 @@ type c07Row struct {
 
 func TestVerifC07CacheNode(t *testing.T) {
 	secs := verifh.Sections(func(r *verifh.Rng) []verifh.Section {
-		return verifc07.Gen(r, verifh.Scale(50, 1200), "cacheNode.Take")
+		return verifc07.Gen(r, verifh.Scale(150, 1500), "cacheNode.Take")
 	})
 	mr := miniredis.RunT(t)
 	rds := redis.New(mr.Addr())
 	st := NewStat("verif-c07")
-	errNotFound := errors.New("c07: not found")
+	errNotFound := verifc07.ErrNotFound
 	verifc07.WriteTrace(t, secs, func(cfg verifh.Cfg) verifc07.Target {
 		mr.FlushAll()
 		var barrier syncx.SingleFlight = syncx.NewSingleFlight()
@@ -53,12 +54,35 @@ func TestVerifC07CacheNode(t *testing.T) {
 				opts = append(opts, WithExpiry(time.Hour))
 			case 2:
 				opts = append(opts, WithExpiry(2*time.Hour), WithNotFoundExpiry(time.Minute))
+			case 3:
+				// zero values: newOptions falls back to the defaults
+				opts = append(opts, WithExpiry(0), WithNotFoundExpiry(0))
+			case 4:
+				// negative values: the defaults again
+				opts = append(opts, WithExpiry(-time.Second), WithNotFoundExpiry(-time.Hour))
+			case 5:
+				// the pair in the other order, the first overridden by a repeated option
+				opts = append(opts, WithNotFoundExpiry(time.Minute), WithExpiry(time.Minute), WithExpiry(3*time.Hour))
 			}
 			nodes = append(nodes, NewNode(rds, barrier, st, errNotFound, opts...))
 		}
+		// dst=1: one destination variable per goroutine, reused call after call and overwritten (poisoned with
+		// 900000 + call id) as soon as the Take that filled it has returned
+		reuse := cfg.Int("dst", 0) == 1
+		var rowMu sync.Mutex
+		rows := map[int]*c07Row{}
 		return verifc07.Target{
+			Corrupt: func(key int) { mr.Set(fmt.Sprintf("c07:%d", key), "{not json") },
 			Invoke: func(c *verifc07.Call, fn func() (any, error)) (any, string, error) {
-				var row c07Row
+				prow := new(c07Row)
+				if reuse {
+					rowMu.Lock()
+					if rows[c.G()] == nil {
+						rows[c.G()] = new(c07Row)
+					}
+					prow = rows[c.G()]
+					rowMu.Unlock()
+				}
 				node := nodes[(c.Key()/100)%n]
 				key := fmt.Sprintf("c07:%d", c.Key())
 				load := func(v any) error {
@@ -70,16 +94,36 @@ func TestVerifC07CacheNode(t *testing.T) {
 					return nil
 				}
 				var err error
-				if c.Ex() {
-					// the second entry point into doTake
-					err = node.TakeWithExpire(&row, key, func(v any, _ time.Duration) error { return load(v) })
-				} else {
-					err = node.Take(&row, key, load)
+				loadEx := func(v any, _ time.Duration) error { return load(v) }
+				ctx := context.Background()
+				switch c.CX() {
+				case 1:
+					var cancel context.CancelFunc
+					ctx, cancel = context.WithTimeout(ctx, time.Hour)
+					defer cancel()
+				case 2:
+					var cancel context.CancelFunc
+					ctx, cancel = context.WithCancel(ctx)
+					cancel()
+				}
+				switch c.EP() {
+				case 1:
+					err = node.TakeWithExpire(prow, key, loadEx)
+				case 2:
+					err = node.TakeCtx(ctx, prow, key, load)
+				case 3:
+					err = node.TakeWithExpireCtx(ctx, prow, key, loadEx)
+				default:
+					err = node.Take(prow, key, load)
 				}
 				if err != nil {
 					return nil, "-", err
 				}
-				return verifc07.Val{ID: row.ID}, "-", nil
+				got := prow.ID
+				if reuse {
+					prow.ID = 900000 + c.ID()
+				}
+				return verifc07.Val{ID: got}, "-", nil
 			},
 		}
 	})
